@@ -26,7 +26,24 @@ variable {K : Type} [Num K]
 the same recursion as `point_cloud_support_point_id` on the list of face normals.  `none` = the `faces[0]` panic. -/
 def polyBestFace (p : Poly K) (dir : V3 K) : Option Nat := cloudId3 dir (p.faces.toList.map (·.normal))
 
-/-- `ConvexPolyhedron::local_support_feature`; the codes are the payloads of `PackedFeatureId::{vertex,edge,face}`. -/
+/-- the slice `a[i1 .. i1 + n]`; `none` = the Rust slice is out of range (panic) -/
+def sliceFrom (a : Array Nat) : Nat → Nat → Option (List Nat)
+  | _, 0 => some []
+  | i1, n + 1 =>
+    match a[i1]?, sliceFrom a (i1 + 1) n with
+    | some x, some xs => some (x :: xs)
+    | _, _ => none
+
+/-- `self.points[*vid as usize]` for every id of the slice; `none` = index panic -/
+def lookupPts (pts : Array (V3 K)) : List Nat → Option (List (V3 K))
+  | [] => some []
+  | i :: rest =>
+    match pts[i]?, lookupPts pts rest with
+    | some v, some vs => some (v :: vs)
+    | _, _ => none
+
+/-- `ConvexPolyhedron::local_support_feature`; the codes are the payloads of `PackedFeatureId::{vertex,edge,face}`.
+`num_vertices = face.num_vertices_or_edges.min(4)`; the zip of the two slices `[i1..i2]`. -/
 def polySupportFeature (p : Poly K) (dir : V3 K) : Option (Feature3 K) :=
   match polyBestFace p dir with
   | none => none
@@ -34,16 +51,13 @@ def polySupportFeature (p : Poly K) (dir : V3 K) : Option (Feature3 K) :=
     match p.faces[best]? with
     | none => none
     | some face =>
-      let i1 := face.first
       let nv := Nat.min face.num 4
-      let i2 := i1 + nv
-      if i2 ≤ p.verticesAdjToFace.size ∧ i2 ≤ p.edgesAdjToFace.size then
-        let vids := (p.verticesAdjToFace.extract i1 i2).toList
-        let eids := (p.edgesAdjToFace.extract i1 i2).toList
-        match vids.mapM (fun v => p.pts[v]?) with
+      match sliceFrom p.verticesAdjToFace face.first nv, sliceFrom p.edgesAdjToFace face.first nv with
+      | some vids, some eids =>
+        match lookupPts p.pts vids with
         | none => none
         | some verts => some { verts := verts, vids := vids, eids := eids, fid := best }
-      else none
+      | _, _ => none
 
 /-! ## `support_feature_id_toward` -/
 
